@@ -210,6 +210,31 @@ func Generate(rng *rand.Rand, i int, thorough bool) *p2prig.Scenario {
 			s.Announce[k].Nodes = nil
 		}
 	}
+	// experimental engine, three or four checkpoints, started on a store that is already past the first of them
+	if s.Engine == "exp" && i%4 == 1 {
+		s.HonestLen = 60 + rng.Intn(300)
+		n := 3 + rng.Intn(2)
+		set := map[int32]bool{}
+		for len(set) < n {
+			set[int32(3+rng.Intn(s.HonestLen-20))] = true
+		}
+		s.CheckpointHeights = nil
+		for h := range set {
+			s.CheckpointHeights = append(s.CheckpointHeights, h)
+		}
+		sort.Slice(s.CheckpointHeights, func(a, b int) bool { return s.CheckpointHeights[a] < s.CheckpointHeights[b] })
+		lo, hi := int(s.CheckpointHeights[0]), int(s.CheckpointHeights[n-2])
+		s.InitialStore, s.PrefixLen = "prefix", lo+rng.Intn(hi-lo+1)
+		s.Nodes = []p2prig.NodeSpec{{Kind: "honest"}}
+		s.DisableCheckpoints, s.DropNode0AfterSync, s.WaitReconnect, s.SlowConvergeWaitSec = false, false, false, 0
+		for k := range s.Announce {
+			s.Announce[k].Nodes = nil
+			if s.Announce[k].Mode == "inv" {
+				s.Announce[k].Mode = "conformant"
+			}
+		}
+		return s
+	}
 	// the only peer, in the middle of being synced from, drops the connection (several replies are still to come); the
 	// service dials it again and has to carry on
 	if s.Engine == "legacy" && i%16 == 1 {
